@@ -11,6 +11,7 @@ from ..dataflow import Origins, ReachingDefs
 from .. import linear
 from ..linear import form, normal_forms, same_modulo_equality, show
 from .. import excflow
+from ..match import result_reaches, just
 from ..match import (calls_named, all_calls_named, arg_of, unguarded_path,
                      is_falsy_const, is_true_const, only_raises_from)
 
@@ -474,8 +475,10 @@ def _call_nodes_with_args(cfg, name, arg0_text, slack_text="self.timeslack"):
     for nd, c in cfg.call_nodes(name):
         a0 = arg_of(c, 0)
         a1 = arg_of(c, 1)
-        if unparse(a0) == arg0_text and (slack_text is None or
-                                         unparse(a1) == slack_text):
+        if a0 is None:
+            continue
+        if cfg.same(a0, nd.id, arg0_text) and (
+                slack_text is None or cfg.same(a1, nd.id, slack_text)):
             out.append(nd.id)
     return out
 
@@ -494,16 +497,9 @@ def r2_must_call(run):
     absent = {"self.assertion.conditions", "conditions.keyswv()"}
 
     def just_for(bound):
-        def j(e, pol):
-            t = unparse(e)
-            if pol is False and (t in absent or t == bound):
-                return True
-            if t == "lax" and pol is True:
-                return True       # closed by R4
-            if t == "not lax" and pol is False:
-                return True
-            return False
-        return j
+        # `lax` is closed by R4
+        return just(cfg, ("lax", True), (bound, False),
+                    *[(t, False) for t in sorted(absent)])
     for fn, bound in (("validate_on_or_after", "conditions.not_on_or_after"),
                       ("validate_before", "conditions.not_before")):
         checks = _call_nodes_with_args(cfg, fn, bound)
@@ -518,30 +514,25 @@ def r2_must_call(run):
                   "an accepting path skips %s although %s may be present" %
                   (fn, bound), fi.loc(),
                   witness=cfg.describe_path(wit) if wit else None)
-    lt = [nd for nd, c in cfg.call_nodes("later_than")
-          if [unparse(a) for a in c.args] ==
-          ["conditions.not_on_or_after", "conditions.not_before"]]
+    ltc = [(nd, c) for nd, c in cfg.call_nodes("later_than")
+           if len(c.args) == 2 and
+           cfg.same(c.args[0], nd.id, "conditions.not_on_or_after") and
+           cfg.same(c.args[1], nd.id, "conditions.not_before")]
+    lt = [nd for nd, c in ltc]
     key = fi.qual + "::later_than"
     if not lt:
         run.violated("R2", key, "NotBefore <= NotOnOrAfter is no longer checked",
                      fi.loc())
     else:
-        t = lt[0]
-        falsy_branch = [b for b in cfg.succ[t.id]
-                        if cfg.nodes[b].kind == ("true" if isinstance(
-                            t.ast, ast.UnaryOp) else "false")]
-        ok = bool(falsy_branch)
-        for b in falsy_branch:
-            reach = cfg.reachable_from(b)
-            ok = ok and not (set(accept) & reach)
-        run.check(ok, "R2", key, "inverted window rejects",
+        t, tc = ltc[0]
+        wit = result_reaches(cfg, t.id, tc, accept, "F")
+        run.check(wit is None, "R2", key, "inverted window rejects",
                   "a false later_than() result can still reach `return True`",
-                  fi.loc(t.ast))
+                  fi.loc(t.ast), witness=cfg.describe_path(wit) if wit else None)
         wit = unguarded_path(
             cfg, cfg.entry, accept, [x.id for x in lt],
-            lambda e, pol: pol is False and (unparse(e) in absent or unparse(e) in
-                                             ("conditions.not_before",
-                                              "conditions.not_on_or_after")))
+            just(cfg, *[(t, False) for t in sorted(absent) + [
+                "conditions.not_before", "conditions.not_on_or_after"]]))
         run.check(wit is None, "R2", key + "::dominates",
                   "checked whenever both bounds are present",
                   "an accepting path skips the NotBefore<=NotOnOrAfter check",
@@ -565,9 +556,11 @@ def r2_must_call(run):
         run.check(wit is None, "R2", key, "on every confirming path",
                   "a confirming path skips %s" % fn, fb.loc(),
                   witness=bcfg.describe_path(wit) if wit else None)
-    lt = [nd for nd, c in bcfg.call_nodes("later_than")
-          if [unparse(a) for a in c.args] ==
-          ["data.not_on_or_after", "data.not_before"]]
+    ltc = [(nd, c) for nd, c in bcfg.call_nodes("later_than")
+           if len(c.args) == 2 and
+           bcfg.same(c.args[0], nd.id, "data.not_on_or_after") and
+           bcfg.same(c.args[1], nd.id, "data.not_before")]
+    lt = [nd for nd, c in ltc]
     key = fb.qual + "::later_than"
     if not lt:
         run.violated("R2", key, "bearer window ordering is no longer checked",
@@ -575,13 +568,13 @@ def r2_must_call(run):
     else:
         wit = unguarded_path(bcfg, bcfg.entry, baccept, [x.id for x in lt],
                              lambda e, pol: False)
-        t = lt[0]
-        bad_branch = [b for b in bcfg.succ[t.id] if bcfg.nodes[b].kind == "true"]
-        ok = wit is None and all(not (set(baccept) & bcfg.reachable_from(b))
-                                 for b in bad_branch) if isinstance(
-            t.ast, ast.UnaryOp) else wit is None
-        run.check(ok, "R2", key, "inverted bearer window does not confirm",
-                  "inverted bearer window can still confirm", fb.loc(t.ast))
+        t, tc = ltc[0]
+        wit2 = result_reaches(bcfg, t.id, tc, baccept, "F")
+        run.check(wit is None and wit2 is None, "R2", key,
+                  "inverted bearer window does not confirm",
+                  "inverted bearer window can still confirm", fb.loc(t.ast),
+                  witness=bcfg.describe_path(wit or wit2) if (wit or wit2)
+                  else None)
     # --- authn_statement_ok
     fa = m.func(AR + "authn_statement_ok")
     acfg = cfg_of(fa, m)
@@ -596,9 +589,8 @@ def r2_must_call(run):
     else:
         wit = unguarded_path(
             acfg, acfg.entry, aaccept, checks,
-            lambda e, pol: (unparse(e) ==
-                            "authn_statement.session_not_on_or_after" and
-                            pol is False) or (unparse(e) == "optional" and pol))
+            just(acfg, ("authn_statement.session_not_on_or_after", False),
+                 ("optional", True)))
         run.check(wit is None, "R2", key,
                   "validated whenever SessionNotOnOrAfter is present",
                   "an accepting path skips the SessionNotOnOrAfter check",
@@ -609,10 +601,9 @@ def r2_must_call(run):
     saccept = [r.id for r in scfg.by_kind("return")
                if is_true_const(r.ast.value)]
     run.require(saccept, "_assertion: `return True` vanished")
-    for callee, just in (
+    for callee, jst in (
             ("authn_statement_ok",
-             lambda e, pol: unparse(e) == "self.context == 'AuthnReq'" and
-             pol is False),
+             just(scfg, ("self.context == 'AuthnReq'", False))),
             ("condition_ok", lambda e, pol: False),
             ("get_subject", lambda e, pol: False)):
         nodes = [nd.id for nd, c in scfg.call_nodes(callee)
@@ -622,18 +613,15 @@ def r2_must_call(run):
             run.violated("R2", key, "self.%s() is no longer called" % callee,
                          fs.loc())
             continue
-        wit = unguarded_path(scfg, scfg.entry, saccept, nodes, just)
+        wit = unguarded_path(scfg, scfg.entry, saccept, nodes, jst)
         run.check(wit is None, "R2", key, "on every accepting path",
                   "an accepting path of _assertion skips %s()" % callee,
                   fs.loc(), witness=scfg.describe_path(wit) if wit else None)
     # condition_ok falsy => raise
     for nd, c in scfg.call_nodes("condition_ok"):
-        ok = nd.kind == "test"
-        if ok:
-            neg = isinstance(nd.ast, ast.UnaryOp)
-            bad = [b for b in scfg.succ[nd.id]
-                   if scfg.nodes[b].kind == ("true" if neg else "false")]
-            ok = bad and all(only_raises_from(scfg, b) for b in bad)
+        wit = result_reaches(scfg, nd.id, c, saccept, "F")
+        ok = wit is None and nd.kind != "stmt" or (
+            wit is None and isinstance(nd.ast, (ast.Assign, ast.Return)))
         run.check(ok, "R2", fs.qual + "::condition_ok-result",
                   "a falsy condition_ok() result raises",
                   "the result of condition_ok() is ignored (an inverted or "
@@ -680,18 +668,14 @@ def r2_must_call(run):
               witness=v2.describe_path(wit) if wit else None)
     wit = unguarded_path(
         v2, v2.entry, acc, pnodes,
-        lambda e, pol: unparse(e) == "isinstance(self.response, samlp.Response)"
-        and pol is False)
+        just(v2, ("isinstance(self.response, samlp.Response)", False)))
     run.check(wit is None, "R2", fv2.qual + "::parse_assertion",
               "parse_assertion() on every accepting path of a Response",
               "verify() can return self for a Response without "
               "parse_assertion()", fv2.loc(),
               witness=v2.describe_path(wit) if wit else None)
     for nd, c in v2.call_nodes("parse_assertion"):
-        ok = nd.kind == "test"
-        if ok:
-            bad = [b for b in v2.succ[nd.id] if v2.nodes[b].kind == "false"]
-            ok = all(not (set(acc) & v2.reachable_from(b)) for b in bad)
+        ok = result_reaches(v2, nd.id, c, acc, "F") is None
         run.check(ok, "R2", fv2.qual + "::parse_assertion-result",
                   "a falsy parse_assertion() result is a rejection",
                   "the result of parse_assertion() is ignored", fv2.loc(c))
@@ -699,13 +683,15 @@ def r2_must_call(run):
     fp = m.func(AR + "parse_assertion")
     pcfg = cfg_of(fp, m)
     for nd, c in pcfg.call_nodes("_assertion"):
-        ok = nd.kind == "test" and isinstance(nd.ast, ast.UnaryOp)
-        if ok:
-            bad = [b for b in pcfg.succ[nd.id] if pcfg.nodes[b].kind == "true"]
-            ok = all(all(isinstance(pcfg.nodes[x].ast, ast.Return) and
-                         is_falsy_const(pcfg.nodes[x].ast.value)
-                         for x in pcfg.succ[b] if pcfg.nodes[x].kind != "exc")
-                     for b in bad)
+        # after a falsy result: no truthy return, and the assertion is not
+        # adopted (self.assertions.append) either
+        truthy = [r.id for r in pcfg.by_kind("return")
+                  if not is_falsy_const(r.ast.value)]
+        adopt = [n2.id for n2, c2 in pcfg.call_nodes("append")
+                 if attr_chain(c2.func) == "self.assertions.append"]
+        excs = [x.id for x in pcfg.nodes if x.kind == "exc"]
+        ok = result_reaches(pcfg, nd.id, c, truthy + adopt, "F",
+                            avoid=excs) is None
         run.check(ok, "R2", fp.qual + "::" + norm_text(c),
                   "a falsy _assertion() result returns False",
                   "the result of _assertion() is not turned into a rejection",
@@ -966,8 +952,11 @@ def r6_session_expiry(run):
             continue
         f = m.enclosing_function(rm, st)
         txt = unparse(v)
-        ok = txt == "0" or txt == ("calendar.timegm(time_util.str_to_time("
-                                   "authn_statement.session_not_on_or_after))")
+        fcfg = cfg_of(f, m)
+        fnd = fcfg.node_of_stmt(st)
+        ok = txt == "0" or (fnd is not None and fcfg.same(
+            v, fnd.id, "calendar.timegm(time_util.str_to_time("
+            "authn_statement.session_not_on_or_after))"))
         run.check(ok, "R6", "%s::%s" % (f.qual, norm_text(st))[:160],
                   "0 or the parsed SessionNotOnOrAfter",
                   "session expiry written from %s" % txt,
@@ -977,8 +966,11 @@ def r6_session_expiry(run):
             continue
         f = m.enclosing_function(rm, st)
         txt = unparse(v)
-        ok = txt == "0" or txt == ("validate_on_or_after("
-                                   "conditions.not_on_or_after, self.timeslack)")
+        fcfg = cfg_of(f, m)
+        fnd = fcfg.node_of_stmt(st)
+        ok = txt == "0" or (fnd is not None and fcfg.same(
+            v, fnd.id, "validate_on_or_after(conditions.not_on_or_after, "
+            "self.timeslack)"))
         run.check(ok, "R6", "%s::%s" % (f.qual, norm_text(st))[:160],
                   "0 or the validated Conditions NotOnOrAfter",
                   "not_on_or_after written from %s" % txt,
